@@ -981,7 +981,7 @@ impl<'a> Gen<'a> {
             None
         };
         // `[::step]` does not lex as a slice (known finding C05); avoid the shape `[:: k]`
-        let e = if st.is_some() && e.is_none() { Some(Box::new(Expr::Int(4))) } else { e };
+        // (`[a::c]` and `[::c]` parse since fix 9cacf21)
         Expr::Slice(Box::new(base), s, e, st)
     }
 
@@ -1862,6 +1862,13 @@ pub fn walk_expr(e: &Expr, f: &mut dyn FnMut(&Expr)) {
                 walk_expr(v, f);
             }
         }
+        Expr::Path(_, steps) => {
+            for st in steps {
+                if let Step::Index(i) = st {
+                    walk_expr(i, f);
+                }
+            }
+        }
         Expr::FStr(parts) => {
             for p in parts {
                 if let FPart::E(e) = p {
@@ -1887,4 +1894,157 @@ fn needs_annotation(e: &Expr) -> bool {
 /// Generate a program from a choice tape.
 pub fn generate(tape: &[u32], cfg: &Cfg) -> Program {
     Gen::new(tape, cfg.clone()).program()
+}
+
+
+// ------------------------------------------------------------------------------------------------
+// directed generator: nested assignment targets (field chains, list elements, nested lists)
+// ------------------------------------------------------------------------------------------------
+
+/// Programs over fixed declarations (`class Vec2 {x,y}`, `class Body {pos: Vec2, mass: int, vals: List[int]}`) and
+/// variables `b: Body`, `bs: List[Body]`, `g: List[List[int]]`, `xs: List[int]`, `k: int`; the body is a tape-chosen
+/// sequence of assignments / compound assignments through access paths of depth 1-3, whole-element replacements
+/// and reads, followed by a print of every leaf.
+pub fn generate_lvalue(tape: &[u32], cfg: &Cfg) -> Program {
+    let mut t = Tape::new(tape);
+    let vec2 = ModelDef { is_class: true, fields: vec![(Ty::Int, None), (Ty::Int, None)], methods: vec![] };
+    let body = ModelDef { is_class: true, fields: vec![(Ty::Model(0), None), (Ty::Int, None), (Ty::list(Ty::Int), None)], methods: vec![] };
+    let (b, bs, g, xs, k) = (0u32, 1u32, 2u32, 3u32, 4u32);
+    let small = |t: &mut Tape| Expr::Int([0i64, 1, 2, 3, 5, 7, 10, 4][t.below(8)]);
+    let mk_vec2 = |t: &mut Tape| Expr::New(0, vec![small(t), small(t)]);
+    let mk_list = |t: &mut Tape, n: usize| Expr::ListLit((0..n).map(|_| small(t)).collect(), Ty::Int);
+    let mk_body = |t: &mut Tape| {
+        let p = mk_vec2(t);
+        let m = small(t);
+        let v = mk_list(t, 3);
+        Expr::New(1, vec![p, m, v])
+    };
+    let mut main = Vec::new();
+    let nb = 2 + t.below(2);
+    main.push(Stmt::Let { name: b, ty: Ty::Model(1), annotated: false, kind: LetKind::Mut, e: mk_body(&mut t) });
+    let elems: Vec<Expr> = (0..nb).map(|_| mk_body(&mut t)).collect();
+    main.push(Stmt::Let { name: bs, ty: Ty::list(Ty::Model(1)), annotated: false, kind: LetKind::Mut, e: Expr::ListLit(elems, Ty::Model(1)) });
+    let rows: Vec<Expr> = (0..2).map(|_| mk_list(&mut t, 3)).collect();
+    main.push(Stmt::Let { name: g, ty: Ty::list(Ty::list(Ty::Int)), annotated: false, kind: LetKind::Mut, e: Expr::ListLit(rows, Ty::list(Ty::Int)) });
+    main.push(Stmt::Let { name: xs, ty: Ty::list(Ty::Int), annotated: false, kind: LetKind::Mut, e: mk_list(&mut t, 3) });
+    main.push(Stmt::Let { name: k, ty: Ty::Int, annotated: true, kind: LetKind::Let, e: Expr::Int(t.below(2) as i64) });
+
+    // index operand for a list of length `len`
+    let idx = |t: &mut Tape, len: usize, allow_oob: bool| -> Expr {
+        match t.below(10) {
+            0..=3 => Expr::Int(t.below(len) as i64),
+            4..=5 => Expr::Int(-(1 + t.below(len) as i64)),
+            6..=7 => Expr::Var(4),
+            8 if allow_oob => Expr::Int(len as i64 + t.below(2) as i64),
+            _ => Expr::Int(0),
+        }
+    };
+    let oob = cfg.sw.runtime_errors;
+    // int leaf paths
+    let leaf = |t: &mut Tape| -> (u32, Vec<Step>) {
+        let rare_oob = oob && t.chance(1, 12);
+        match t.below(9) {
+            0 => (0, vec![Step::Field(1, 0), Step::Field(0, t.below(2))]),
+            1 => (0, vec![Step::Field(1, 1)]),
+            2 => (0, vec![Step::Field(1, 2), Step::Index(Box::new(idx(t, 3, rare_oob)))]),
+            3 => (1, vec![Step::Index(Box::new(idx(t, nb, rare_oob))), Step::Field(1, 1)]),
+            4 => (1, vec![Step::Index(Box::new(idx(t, nb, rare_oob))), Step::Field(1, 0), Step::Field(0, t.below(2))]),
+            5 => (1, vec![Step::Index(Box::new(idx(t, nb, rare_oob))), Step::Field(1, 2), Step::Index(Box::new(idx(t, 3, rare_oob)))]),
+            6 | 7 => (2, vec![Step::Index(Box::new(idx(t, 2, rare_oob))), Step::Index(Box::new(idx(t, 3, rare_oob)))]),
+            _ => (3, vec![Step::Index(Box::new(idx(t, 3, rare_oob)))]),
+        }
+    };
+    let n = 4 + t.below(10);
+    let mut tags: std::collections::BTreeSet<&'static str> = Default::default();
+    tags.insert("lvalue_paths");
+    for _ in 0..n {
+        match t.below(10) {
+            0..=4 => {
+                let (root, path) = leaf(&mut t);
+                let op = [None, Some(BinOp::Add), Some(BinOp::Sub), Some(BinOp::Mul), None][t.below(5)];
+                // right-hand side: a leaf read, a literal, or (plain assignment only) a small natural-precedence sum
+                let e = match t.below(4) {
+                    0 => small(&mut t),
+                    1 => {
+                        let (r2, p2) = leaf(&mut t);
+                        Expr::Path(r2, p2)
+                    }
+                    2 if op.is_none() || cfg.sw.aug_compound_rhs => {
+                        let (r2, p2) = leaf(&mut t);
+                        Expr::Bin(BinOp::Add, Box::new(Expr::Path(r2, p2)), Box::new(small(&mut t)))
+                    }
+                    _ => Expr::Var(4),
+                };
+                tags.insert(match path.len() {
+                    1 => "lvalue_depth1",
+                    2 => "lvalue_depth2",
+                    _ => "lvalue_depth3",
+                });
+                if op.is_some() {
+                    tags.insert("lvalue_aug");
+                }
+                main.push(Stmt::PathSet { root, path, op, e });
+            }
+            5 => {
+                // whole-element replacement
+                tags.insert("lvalue_replace_element");
+                match t.below(4) {
+                    0 => main.push(Stmt::PathSet { root: 0, path: vec![Step::Field(1, 0)], op: None, e: mk_vec2(&mut t) }),
+                    1 => {
+                        let i = idx(&mut t, nb, false);
+                        main.push(Stmt::PathSet { root: 1, path: vec![Step::Index(Box::new(i))], op: None, e: mk_body(&mut t) })
+                    }
+                    2 => {
+                        let i = idx(&mut t, 2, false);
+                        main.push(Stmt::PathSet { root: 2, path: vec![Step::Index(Box::new(i))], op: None, e: mk_list(&mut t, 3) })
+                    }
+                    _ => {
+                        let i = idx(&mut t, nb, false);
+                        main.push(Stmt::PathSet { root: 1, path: vec![Step::Index(Box::new(i)), Step::Field(1, 0)], op: None, e: mk_vec2(&mut t) })
+                    }
+                }
+            }
+            6 | 7 => {
+                let (root, path) = leaf(&mut t);
+                main.push(Stmt::Print(Expr::Path(root, path)));
+            }
+            _ => {
+                // a loop writing through an index variable
+                tags.insert("lvalue_in_loop");
+                let var = 10 + t.below(3) as u32;
+                let body = vec![Stmt::PathSet {
+                    root: 2,
+                    path: vec![Step::Index(Box::new(Expr::Var(var))), Step::Index(Box::new(Expr::Int(t.below(3) as i64)))],
+                    op: Some(BinOp::Add),
+                    e: Expr::Var(var),
+                }];
+                main.push(Stmt::ForRange { var, args: vec![Expr::Int(2)], body });
+            }
+        }
+    }
+    // observe every leaf
+    for f in 0..2 {
+        main.push(Stmt::Print(Expr::Path(0, vec![Step::Field(1, 0), Step::Field(0, f)])));
+    }
+    main.push(Stmt::Print(Expr::Path(0, vec![Step::Field(1, 1)])));
+    for j in 0..3 {
+        main.push(Stmt::Print(Expr::Path(0, vec![Step::Field(1, 2), Step::Index(Box::new(Expr::Int(j)))])));
+    }
+    for i in 0..nb as i64 {
+        main.push(Stmt::Print(Expr::Path(1, vec![Step::Index(Box::new(Expr::Int(i))), Step::Field(1, 1)])));
+        main.push(Stmt::Print(Expr::Path(1, vec![Step::Index(Box::new(Expr::Int(i))), Step::Field(1, 0), Step::Field(0, 0)])));
+        main.push(Stmt::Print(Expr::Path(1, vec![Step::Index(Box::new(Expr::Int(i))), Step::Field(1, 0), Step::Field(0, 1)])));
+        for j in 0..3 {
+            main.push(Stmt::Print(Expr::Path(1, vec![Step::Index(Box::new(Expr::Int(i))), Step::Field(1, 2), Step::Index(Box::new(Expr::Int(j)))])));
+        }
+    }
+    for i in 0..2 {
+        for j in 0..3 {
+            main.push(Stmt::Print(Expr::Path(2, vec![Step::Index(Box::new(Expr::Int(i))), Step::Index(Box::new(Expr::Int(j)))])));
+        }
+    }
+    for j in 0..3 {
+        main.push(Stmt::Print(Expr::Path(3, vec![Step::Index(Box::new(Expr::Int(j)))])));
+    }
+    Program { enums: vec![], models: vec![vec2, body], fns: vec![], main, tags }
 }
